@@ -36,12 +36,19 @@ package token
 //@   requires unlocked: !held(tokens.mu)
 //@   modifies held(tokens.mu), tokens.modTime, tokens.fileSize, tokens.tokens, tokens.tokens[*]
 //@   ensures unlocked: !held(tokens.mu)
+//@ -- C09/C16: the copy of a token kept in the table (and the one handed to an editor) has the scope, the validity window and the grants
+//@ -- of the original: field by field
 //@ func (*Stateful).Clone
-//@   trusted
-//@   why stateful.go: returns a copy
+//@   safe
+//@   props C09 C16 C12
 //@   requires nonnil: token != nil
 //@   modifies nothing
+//@   fresh
 //@   ensures copy: result != nil && fresh(result)
+//@   ensures fields: result.Token == token.Token && result.Group == token.Group
+//@        && result.IncludeSubgroups == token.IncludeSubgroups && result.Username == token.Username
+//@        && result.Expires == token.Expires && result.NotBefore == token.NotBefore && result.IssuedAt == token.IssuedAt && result.IssuedBy == token.IssuedBy
+//@   ensures grants: len(result.Permissions) == len(token.Permissions) && (forall k int :: 0 <= k && k < len(token.Permissions) ==> result.Permissions[k] == token.Permissions[k])
 //@
 //@ -- ------------------------------------------------------------------ token scope and validity (C09)
 //@ spec hasprefix(s string, p string) bool = len(s) >= len(p) && (forall i int :: 0 <= i && i < len(p) ==> s[i] == p[i])
